@@ -1548,7 +1548,15 @@ impl HasChildren for XmlDocument {
                 Ok(value)
             }
             XmlItem::DocumentType(_) => {
-                if self.document_declaration().is_some() || self.document_element().is_ok() {
+                // The declaration stands before the document element.
+                let before_element = match (self.document_element(), id) {
+                    (Err(_), _) => true,
+                    (Ok(element), Some(id)) => {
+                        self.child_index(id) <= self.child_index(element.borrow().id())
+                    }
+                    (Ok(_), None) => false,
+                };
+                if self.document_declaration().is_some() || !before_element {
                     Err(error::Error::InvalidType)
                 } else {
                     add_or_insert(self, value.clone(), id);
